@@ -42,12 +42,23 @@ def typed_schema(ver, body, key):
     if k not in _schemas:
         xsd = (f'<xs:schema xmlns:xs="{cm.XS}">{body}</xs:schema>')
         s, err = cm.build(ver, xsd)
+        if s is not None:
+            s._verif_xsd = xsd
         _schemas[k] = (s, err)
     return _schemas[k]
 
 
 def check_value(s, typename, text, want_ok, want_val, out, ver, label, compare=None):
-    """Document level + component level; want_val None = do not compare the value."""
+    """Document level + component level; want_val None = do not compare the value.  Reported cases carry the
+    schema text and the expected verdict, so that a replay needs nothing else."""
+    n0 = len(out)
+    _check_value(s, typename, text, want_ok, want_val, out, ver, label, compare)
+    for i in range(n0, len(out)):
+        out[i] = tuple(out[i][:5]) + (getattr(s, "_verif_xsd", None), want_ok,
+                                      None if want_val is None else repr(want_val))
+
+
+def _check_value(s, typename, text, want_ok, want_val, out, ver, label, compare=None):
     xml = f'<v {XSI}>{esc(text)}</v>'
     t = s.elements["v"].type
     try:
@@ -257,8 +268,34 @@ def judge_tables(job):
             if s is None:
                 continue
             n += 1
-            check_value(s, "D", r["text"], r["ok"], Decimal(r["text"]) if r["ok"] else None, out, ver,
+            text = "".join(r["w"])
+            check_value(s, "D", text, r["ok"], to_decimal(r["val"]) if r["ok"] else None, out, ver,
                         "xs:decimal " + fx)
+    elif table == "whitespace":
+        ch = {"a": "a", "s": " ", "t": "\t"}
+        facx = {"-": "", "len2": '<xs:length value="2"/>', "min1": '<xs:minLength value="1"/>',
+                "max2": '<xs:maxLength value="2"/>',
+                "enum": '<xs:enumeration value="a a"/><xs:enumeration value="a"/>'}
+        for r in rows:
+            q = r["r"]
+            wsx = f'<xs:whiteSpace value="{q["ws"]}"/>' if q["ws"] != "-" else ""
+            if q["two"]:
+                body = (f'<xs:simpleType name="W0"><xs:restriction base="xs:{q["base"]}">{wsx}</xs:restriction>'
+                        f'</xs:simpleType><xs:simpleType name="W"><xs:restriction base="W0">{facx[q["fac"]]}'
+                        '</xs:restriction></xs:simpleType><xs:element name="v" type="W"/>')
+            else:
+                body = (f'<xs:simpleType name="W"><xs:restriction base="xs:{q["base"]}">{wsx}{facx[q["fac"]]}'
+                        '</xs:restriction></xs:simpleType><xs:element name="v" type="W"/>')
+            label = f'xs:{q["base"]} whiteSpace={q["ws"]} {q["fac"]}{" (two steps)" if q["two"] else ""}'
+            s, err = typed_schema(ver, body, label)
+            if s is None:
+                out.append((ver, label, "", f"schema refused: {err}"[:160], "schema"))
+                continue
+            n += 1
+            val = "".join(ch[c] for c in r["v"])
+            # (an empty element is decoded as None by the default converter: the value is compared when there is one)
+            check_value(s, "W", "".join(ch[c] for c in r["w"]), r["ok"], val if (r["ok"] and val.strip()) else None,
+                        out, ver, label)
     elif table == "patterns":
         for r in rows:
             body = (f'<xs:simpleType name="P"><xs:restriction base="xs:{r["base"]}"><xs:pattern value="[a-c]{{2}}"/>'
@@ -346,7 +383,7 @@ def run(ctx: Ctx):
                 constants={"MaxLen": 0, "Kinds": '{"decimal"}'}, tag="tables")
     tables = {x["table"]: x["rows"] for x in t.json_records()}
     if set(tables) != {"bounds", "facets", "lists", "unions", "bools", "dates10", "dates11", "times", "durations",
-                       "hex", "base64", "strfacets", "digits", "patterns", "timezones"}:
+                       "hex", "base64", "strfacets", "digits", "whitespace", "patterns", "timezones"}:
         raise MachineryError(f"tables missing: {sorted(tables)}")
     total = 0
     bad_all = []
@@ -374,15 +411,20 @@ def run(ctx: Ctx):
         bad_all += bad
     # small tables
     jobs = [(name, tables[name], ver) for ver in ("1.0", "1.1")
-            for name in ("lists", "unions", "bools", "times", "durations", "hex", "base64", "strfacets", "digits",
-                         "patterns", "timezones")]
+            for name in ("lists", "unions", "bools", "times", "durations", "hex", "base64", "strfacets", "patterns", "timezones")]
+    for name in ("digits", "whitespace"):        # the large tables go out in slices
+        rows = tables[name]
+        jobs += [(name, rows[i:i + 700], ver) for ver in ("1.0", "1.1") for i in range(0, len(rows), 700)]
     jobs += [("dates", tables["dates10"], "1.0"), ("dates", tables["dates11"], "1.1")]
     for bad, n in ctx.pmap(judge_tables, jobs):
         total += n
         bad_all += bad
-    for ver, label, text, what, direction in bad_all:
-        ctx.report({"ver": ver, "type": label, "text": text, "observed": what, "direction": direction},
-                   f"{ver} {label} on {text!r}: {what}", finding=known(direction, label, text, what))
+    for item in bad_all:
+        ver, label, text, what, direction = item[:5]
+        case = {"ver": ver, "type": label, "text": text, "observed": what, "direction": direction}
+        if len(item) > 5 and item[5]:
+            case.update({"xsd": item[5], "want_ok": item[6], "want_val": item[7]})
+        ctx.report(case, f"{ver} {label} on {text!r}: {what}", finding=known(direction, label, text, what))
     ctx.sample({"class_word": words[len(words) // 2]})
     ctx.sample({"bound_row": tables["bounds"][5]})
     ctx.sample({"facet_row": tables["facets"][100]})
@@ -396,7 +438,10 @@ def run(ctx: Ctx):
                 "lexical forms; 288 two-level facet chains x 15 candidates x 3 forms; list, union, "
                 "boolean tables; xs:date field catalogue (12 years x 6 months x 8 days x 9 zones) per "
                 "XSD version; xs:time field catalogue, xs:duration grammar catalogue, xs:hexBinary and xs:base64Binary "
-                "class words; all enumerated / tabulated by TLC from spec/SimpleTypes.tla")
+                "class words; totalDigits / fractionDigits over ALL decimal class words of length <= 5 (every shape of zero, "
+                "missing integer part, leading / trailing zeros); whiteSpace x length-family / enumeration facets on "
+                "xs:string / xs:normalizedString / xs:token over all words of length <= 4 on letter / space / tab, in one "
+                "or two derivation steps; all enumerated / tabulated by TLC from spec/SimpleTypes.tla")
     ctx.assumptions += ["leap seconds (ss = 60) are left out of the xs:time catalogue", "float/double rounding, arbitrary pattern facets and anyURI syntax are outside "
                         "what the TLA+ definition states (see DESIGN.md)",
                         "digits of class '7' are rendered as 7"]
@@ -405,11 +450,25 @@ def run(ctx: Ctx):
 def replay(ctx: Ctx, case):
     ver, label, text = case["ver"], case["type"], case["text"]
     out = []
-    if label.startswith("xs:"):
+    if case.get("xsd"):
+        s, err = cm.build(ver, case["xsd"])
+        if s is None:
+            raise MachineryError(f"the schema of the case is refused: {err}")
+        want_val = None
+        if case.get("want_val") is not None:
+            want_val = eval(case["want_val"], {"Decimal": Decimal})      # repr of a str / int / Decimal / bool
+        kw = {}
+        if label.startswith("union(") or label == "xs:boolean":
+            kw["compare"] = (lambda a, b: type(a) is type(b) and a == b) if label.startswith("union(") else \
+                (lambda a, b: a is b)
+        check_value(s, "v", text, case["want_ok"], want_val, out, ver, label, **kw)
+    elif label.startswith("xs:") and " " not in label:
         s, err = typed_schema(ver, f'<xs:element name="v" type="{label}"/>', label)
         # the verdict of the spec for this text is stored in the case
         want = "spec says True" in case["observed"] or case["direction"] in ("rejects-valid", "value", "roundtrip")
         check_value(s, label, text, want, None, out, ver, label)
-    for *_, what, direction in out:
-        ctx.report(dict(case, observed=what), what)
+    else:
+        raise MachineryError("the case does not carry its schema")
+    for item in out:
+        ctx.report(dict(case, observed=item[3]), item[3], finding=known(item[4], label, text, item[3]))
     ctx.states = ctx.transitions = 1
